@@ -3,6 +3,8 @@ package srctab
 import (
 	"encoding/json"
 	"fmt"
+	"go/constant"
+	"strings"
 
 	"verifharness/core"
 	"verifharness/hx"
@@ -32,6 +34,43 @@ func (t *T) Emit(name, where string, v Val) {
 	t.ctx.Sink.Add(hx.Case{Kind: "srctab:" + name, Input: hx.MustJSON(map[string]string{"srctab": name}),
 		Observed: map[string]string{"where": where, "value": v.Coq()}, Class: "srctab/" + name, Trivial: true,
 		Coq: coq})
+}
+
+func keyText(v Val) string {
+	var k string
+	switch v := v.(type) {
+	case sVal:
+		k = string(v)
+	case zVal:
+		k = constant.ToInt(v.v).ExactString()
+	default:
+		Failf("table key %s is neither a string nor an integer", v.Coq())
+	}
+	if strings.ContainsAny(k, "\"\\[]") {
+		Failf("table key %q holds a character the item names cannot carry", k)
+	}
+	return k
+}
+
+// EmitPairs emits a table: one item `name[<key>]` per pair (its value is the pair itself) and the
+// item `name[#]` (the number of pairs), so that a verdict names the exact key.
+func (t *T) EmitPairs(name, where string, pairs []Val) {
+	for _, p := range pairs {
+		pv, ok := p.(pVal)
+		if !ok {
+			Failf("table %s: element %s is not a pair", name, p.Coq())
+		}
+		t.Emit(name+"["+keyText(pv.a)+"]", where, pv)
+	}
+	t.Emit(name+"[#]", where, Int(int64(len(pairs))))
+}
+
+// EmitList emits an ordered list: one item `name[<i>]` = (i, element) per element and `name[#]`.
+func (t *T) EmitList(name, where string, elems []Val) {
+	for i, e := range elems {
+		t.Emit(fmt.Sprintf("%s[%d]", name, i), where, P(Int(int64(i)), e))
+	}
+	t.Emit(name+"[#]", where, Int(int64(len(elems))))
 }
 
 // Main is the entry point of a srctabXX binary: module is the Coq module holding the
